@@ -46,6 +46,10 @@ func checkC10(P *Prog, r *Result) {
 	// context's current test, set from the schema's own copy right before the call, not from a Test value a wrapper
 	// closed over when it was made (C02's current-test rule)
 	shareRule(P, r, checkC02, "C02/current-test", nil, "C10/issuepath-of-running-test", 1)
+	// the source-specific tag is the tag of the source the record was read from: the request front end hands a query
+	// string to the query parser (tag `query`) and a form body to the form parser (tag `form`) - a HEAD request with a
+	// form content type that goes to the form parser has its query parameters keyed by the `form` tag (C15's table)
+	shareRule(P, r, checkC15, "C15/dispatch-table", nil, "C10/source-tag-of-the-source-read", 4)
 	shareRule(P, r, checkC07, "C07/release", func(o Obligation) bool { return strings.Contains(o.Construct, "PathBuilder") }, "C10/path-builder-own", 0)
 	shareRule(P, r, checkC07, "C07/reinit", func(o Obligation) bool { return strings.Contains(o.Construct, "PathBuilder") }, "C10/path-builder-clean", 0)
 	_ = R
